@@ -137,6 +137,13 @@ pub fn c03_cells(ctx: &Ctx) -> Vec<Cell> {
     cells.push(Cell::new(Fam::Exp, Ft::F32, &[0.0]));
     cells.push(Cell::new(Fam::Gamma, Ft::F64, &[f64::INFINITY, 2.0]));
     cells.push(Cell::new(Fam::Gamma, Ft::F64, &[2.0, f64::INFINITY]));
+    // ... also on the small-shape branch, where the boost factor u^(1/shape) can underflow to 0 (0 * inf = NaN)
+    for &k in &[0.01, 0.02, 0.05, 0.1, 0.5, 1.0] {
+        cells.push(Cell::new(Fam::Gamma, Ft::F64, &[k, f64::INFINITY]));
+        cells.push(Cell::new(Fam::Gamma, Ft::F32, &[k, f64::INFINITY]));
+    }
+    cells.push(Cell::new(Fam::Gamma, Ft::F32, &[f64::INFINITY, 2.0]));
+    cells.push(Cell::new(Fam::Gamma, Ft::F32, &[2.0, f64::INFINITY]));
     let mut seen = std::collections::HashSet::new();
     cells.retain(|c| seen.insert(c.key()));
     cells
